@@ -9,13 +9,14 @@ import (
 	"compress/zlib"
 	"fmt"
 	"strings"
+	"time"
 
 	req "github.com/imroc/req/v3"
 	"github.com/imroc/req/v3/verifharness/hk"
 	"github.com/klauspost/compress/zstd"
 )
 
-var apiModes = []string{"bytes", "output", "tobytes"}
+var apiModes = []string{"bytes", "output", "tobytes", "download-callback"}
 
 // apiExchange: the same exchange through Client.R() instead of Transport.RoundTrip.
 func (w *world) apiExchange(x exchange, mode, xid string) (o obs) {
@@ -33,6 +34,9 @@ func (w *world) apiExchange(x exchange, mode, xid string) (o obs) {
 		r.SetOutput(&out)
 	case "tobytes":
 		r.DisableAutoReadResponse()
+	case "download-callback":
+		// a download with a progress callback: the transport wraps the message body (below the decoder)
+		r.SetOutput(&out).SetDownloadCallbackWithInterval(func(info req.DownloadInfo) {}, time.Millisecond)
 	}
 	var resp *req.Response
 	var err error
@@ -54,7 +58,7 @@ func (w *world) apiExchange(x exchange, mode, xid string) (o obs) {
 	switch mode {
 	case "bytes":
 		o.Body = resp.Bytes()
-	case "output":
+	case "output", "download-callback":
 		o.Body = out.Bytes()
 	case "tobytes":
 		if err == nil {
@@ -136,8 +140,19 @@ func (g *gen) runExtra() {
 				if n%4 == 3 {
 					k = hk.Pick(rng, reqKinds)
 				}
-				g.oneAPI(exchange{Stack: st, Cfg: cf, Req: k, S: s}, apiModes[n%len(apiModes)])
+				g.oneAPI(exchange{Stack: st, Cfg: cf, Req: k, S: s}, apiModes[(n+n/len(apiModes))%len(apiModes)])
 				n++
+			}
+		}
+		g.drop(s)
+	}
+	// a download with a progress callback as the read mode of every decode cell (the body wrapper and the
+	// decode decision are two sites)
+	for _, c := range []coding{codings[0], codings[1], codings[2], codings[3], codings[4], codings[10]} {
+		s := g.newScript(text, c, rng.Bool(), bin)
+		for _, st := range stacks {
+			for _, cf := range cfgs {
+				g.oneAPI(exchange{Stack: st, Cfg: cf, Req: reqKinds[0], S: s}, "download-callback")
 			}
 		}
 		g.drop(s)
@@ -811,5 +826,39 @@ func (g *gen) runCharsetUntouched() {
 			}
 			g.drop(s)
 		}
+	}
+}
+
+// U. Range header spellings: any Range field makes the request a Range request - unit in another letter
+// case, another unit, spaces, several ranges, nonsense - the transport does not add Accept-Encoding: gzip
+// and (AutoDecompression off) leaves a coded answer alone, on every stack; with a 206 slice of the coded
+// representation as the answer as well as a 200.
+func (g *gen) runRangeSpellings() {
+	r, rng := g.r, g.rng.Fork()
+	const bin = "application/octet-stream"
+	p := payload{"text900", textish(rng, 900)}
+	ranges := []string{"Bytes=4-59", "BYTES=0-", "bytes =0-9", " bytes=0-99", "bytes=0-9,20-29", "items=0-5", "none", "bytes=-5", "x", "bYtEs=1-2"}
+	n := 0
+	for _, c := range []coding{codings[0], codings[10], codings[1]} {
+		full := g.newScript(p, c, true, bin)
+		L := len(full.Served)
+		part := g.corruptScript(full, "", append([]byte{}, full.Served[4:60]...))
+		part.Status, part.CRange = 206, fmt.Sprintf("bytes 4-59/%d", L)
+		part.Payload = part.Served // a slice of the coded representation: untouched means these bytes
+		for _, rv := range ranges {
+			for _, st := range stacks {
+				for _, cf := range []cfg{{}, {Disable: true}, {Auto: true}} {
+					s := full
+					if n%2 == 1 && !cf.Auto {
+						s = part
+					}
+					g.one(exchange{Stack: st, Cfg: cf, Req: reqKind{"GET", "", rv}, S: s, Pat: readPats[n%len(readPats)]})
+					r.Count("range.spelling=" + strings.TrimSpace(rv))
+					n++
+				}
+			}
+		}
+		g.drop(full)
+		g.drop(part)
 	}
 }
